@@ -5,7 +5,7 @@
 (* shortest history that exports a stale signature - a PREDICTION that the harness then replays on the  *)
 (* real object (only the R-spec's rejection of the real observation is a finding).                      *)
 (* RotMC_tab.cfg: the construction-history lane on its own - FREE exploration of StartT / SetSlot /      *)
-(* AppendSlot / ClearT / AddCertificate / ComputeT (any builder, origin, slot, key, form, order and      *)
+(* AppendSlot / ClearT / AddCertificate / Rekey / SetCa / ComputeT (any builder, origin, slot, key, form, order and      *)
 (* repetition to depth 6) with HistoryFree, SameAsFresh (the value of an object = the value of a fresh   *)
 (* object built from its key list in one go) and WriteIsLocal (a write replaces, it does not shift).     *)
 EXTENDS Rot
@@ -42,6 +42,8 @@ TInits(fl) == {<<>>} \cup {<<Slot(a, FALSE)>> : a \in KeysOfFl(fl)} \cup {<<Slot
 DoStartT == \E fl \in Flavours : \E og \in Origins(fl) : \E init \in TInits(fl) : \E cert \in {NoKey} \cup KeysOfFl(fl) : StartT(fl, og, init, cert)
 DoSetSlot == \E i \in 1..4 : \E k \in KeysOfFl(tab.fl) : \E form \in Forms(tab.fl) : SetSlot(i, k, form)
 DoAppendSlot == \E k \in KeysOfFl(tab.fl) : \E form \in Forms(tab.fl) : AppendSlot(k, form)
+DoRekey == \E i \in 1..4 : \E k \in KeysOfFl(tab.fl) : Rekey(i, k)
+DoSetCa == \E i \in 0..4 : \E ca \in BOOLEAN : SetCa(i, ca)
 DoAddCertificate == \E k \in KeysOfFl(tab.fl) : AddCertificate(k)
 DoSetAll == \E a, b \in KeysOfFl(tab.fl) : \E ks \in {<<a>>, <<a, b>>} : SetAll(ks)
 LStartT == lane = "tab" /\ tab.fl = "none" /\ DoStartT /\ UNCHANGED lane
@@ -49,6 +51,8 @@ LSetSlot == lane = "tab" /\ DoSetSlot /\ UNCHANGED lane
 LAppendSlot == lane = "tab" /\ DoAppendSlot /\ UNCHANGED lane
 LClearT == lane = "tab" /\ ClearT /\ UNCHANGED lane
 LAddCertificate == lane = "tab" /\ DoAddCertificate /\ UNCHANGED lane
+LRekey == lane = "tab" /\ DoRekey /\ UNCHANGED lane
+LSetCa == lane = "tab" /\ DoSetCa /\ UNCHANGED lane
 LSetAll == lane = "tab" /\ DoSetAll /\ UNCHANGED lane
 LComputeT == lane = "tab" /\ ComputeT /\ UNCHANGED lane
 LCompute == lane = "compute" /\ DoCompute /\ UNCHANGED lane
@@ -66,7 +70,7 @@ LParse1 == lane = "cb1" /\ Parse1 /\ UNCHANGED lane
 LSetImageLength == lane = "cb1" /\ DoSetImageLength /\ UNCHANGED lane
 Next == \/ LCompute \/ LComputeFor \/ LWriteFile \/ LReadByPath \/ LBuild21 \/ LExport21 \/ LParse21 \/ LSetUserData \/ LSetConstraints
         \/ LBuild1 \/ LExport1 \/ LParse1 \/ LSetImageLength
-        \/ LStartT \/ LSetSlot \/ LAppendSlot \/ LClearT \/ LAddCertificate \/ LSetAll \/ LComputeT
+        \/ LStartT \/ LSetSlot \/ LAppendSlot \/ LClearT \/ LAddCertificate \/ LSetAll \/ LRekey \/ LSetCa \/ LComputeT
 MCInit == Init /\ lane \in {"compute", "files", "cb21", "cb1"}
 Spec == MCInit /\ [][Next]_<<vars, lane>>
 \* the construction-history lane is checked by a run of its own (RotMC_tab.cfg), beside the others
@@ -79,6 +83,11 @@ RkthStable == [][obj.kind = obj'.kind /\ obj.kind # "none" /\ act'.a \notin {"Bu
 WriteIsLocal == [][/\ (act'.a = "SetSlot" => /\ Len(tab'.slots) = Len(tab.slots) /\ tab'.slots[act'.i].k = act'.k
                                               /\ \A j \in 1..Len(tab.slots) : j # act'.i => tab'.slots[j] = tab.slots[j])
                    /\ (act'.a = "AppendSlot" => SubSeq(tab'.slots, 1, Len(tab.slots)) = tab.slots /\ Len(tab'.slots) = Len(tab.slots) + 1)
+                   /\ (act'.a = "Rekey" => /\ Len(tab'.slots) = Len(tab.slots) /\ tab'.slots[act'.i] = Slot(act'.k, tab.slots[act'.i].ca)
+                                            /\ \A j \in 1..Len(tab.slots) : j # act'.i => tab'.slots[j] = tab.slots[j])
+                   /\ (act'.a = "SetCa" => /\ Len(tab'.slots) = Len(tab.slots)
+                                            /\ \A j \in 1..Len(tab.slots) : /\ tab'.slots[j].k = tab.slots[j].k
+                                                                             /\ tab'.slots[j].ca = (IF act'.i \in {0, j} THEN act'.ca ELSE tab.slots[j].ca))
                    /\ (act'.a = "SetAll" => FinalKeys(tab'.slots) = act'.keys)
                    /\ (act'.a \in {"ComputeT", "AddCertificate"} => tab'.slots = tab.slots)]_<<vars, lane>>
 \* two objects that hold the same key list hand out the same value, whatever happened to them before (the value is a function of the
@@ -87,6 +96,12 @@ SameAsFresh == act.a = "ComputeT" =>
    LET pre   == [i \in 1..Count(tab.slots) |-> tab.slots[i]]
        fresh == [fl |-> tab.fl, slots |-> IF Indexed(tab.fl) THEN Pad4(pre) ELSE pre, cert |-> NoKey] IN
    TabLegal(fresh) /\ act.term = TabTerm(fresh) /\ act.table = TabTable(fresh)
+\* the value FOLLOWS the contents: two legal tables of the same builder hand out the same value only if they hold the same key list with
+\* the same flags - so a read after a change that changed the contents can never be answered with what was read before the change
+\* (checked between every state and its successor: the value before and after a write)
+ValueFollows == [][TabLegal(tab) /\ TabLegal(tab') /\ tab'.fl = tab.fl /\ ~Whole(tab.fl) =>
+                     ((TabTerm(tab') = TabTerm(tab)) <=> (FinalKeys(tab'.slots) = FinalKeys(tab.slots)
+                                                          /\ (Indexed(tab.fl) \/ FinalCas(tab'.slots) = FinalCas(tab.slots))))]_<<vars, lane>>
 \* the revision is not decoration: in this world the two revisions of famA yield DIFFERENT values for the same key list, and the name
 \* "latest" yields the value of the revision it stands for
 RevisionMatters == act.a = "ComputeFor" =>
